@@ -76,6 +76,14 @@ def cases(tier, seed, phase):
                 writes[rng.randrange(0, 6)] = rng.choice(['qe', 'exc'])
         yield {'kind': 'ingress', 'edge': rng.choice(['smtp', 'wsgi']), 'chain': chain, 'rcpts': rl, 'writes': writes,
                'nonnull': rng.random() < 0.8, 'relay': rng.random() < 0.7}
+    # edge -> ProxyQueue -> real StaticSmtpRelay / StaticLmtpRelay -> a scripted next hop (the scripts of C11)
+    from harness.props import c11
+    hop = [c for c in c11.cases(tier, seed, phase) if c.get('kind') == 'smtp' and 'second' not in c and not c.get('utf8addr') and not c.get('body8bit')
+           and not c.get('dupaddr') and 'stall' not in c['dev'].values() and c.get('connect', 'ok') != 'timeout']
+    rng = rng_for(seed, 'c02h', 0)
+    rng.shuffle(hop)
+    for k, c in enumerate(hop[:200 if tier == 'quick' else 3000]):
+        yield {'kind': 'proxyhop', 'edge': 'smtp' if k % 2 else 'wsgi', 'script': c}
     for j in range(30 if tier == 'quick' else 600):
         rng = rng_for(seed, 'c02c', j)
         yield {'kind': 'concurrent', 'edge': 'smtp', 'nclients': rng.choice([2, 2, 3]), 'ndomains': rng.choice([1, 2, 3]),
@@ -280,12 +288,15 @@ def drive_wsgi(case, queue, state):
 
     def start_response(status, headers):
         box['status'] = status
+        if status.startswith('500') and not any(k.lower() == 'x-smtp-reply' for k, _ in headers):
+            out['raised'] = 'answered by the edge\'s own exception handler'
 
     def go():
         try:
             edge(environ, start_response)
-        except BaseException:
+        except BaseException as e:
             box.setdefault('status', '500 the WSGI application raised')      # what a WSGI server makes of it
+            out['raised'] = type(e).__name__
         out['stored'] = snapshot_store(state)
     g = gevent.spawn(go)
     if case.get('slow') is not None:
@@ -663,6 +674,82 @@ def run_ingress(case, model):
     return CaseResult(mismatch, hits, key, tags)
 
 
+def run_proxyhop(case, model):
+    """A message through a real edge into a real ProxyQueue over a real StaticSmtpRelay / StaticLmtpRelay whose next hop is one of
+    C11's scripted peers; the reply the edge's client gets vs the composition Ingress.proxyHop (Edge.proxyEnqueue of Relay.attempt)."""
+    import gevent
+    from gevent import socket as gsocket
+    import socket as _socket
+    from slimta.queue.proxy import ProxyQueue
+    from slimta.relay.smtp.static import StaticSmtpRelay, StaticLmtpRelay
+    from harness.props import c11
+    try:
+        gevent.get_hub().exception_stream = None
+    except Exception:
+        pass
+    sc = case['script']
+    peers = []
+    shared = {'n': 0}
+
+    def creator(address):
+        if sc.get('connect', 'ok') == 'refused':
+            raise _socket.error(111, 'Connection refused')
+        a, b = gsocket.socketpair()
+        p = c11.Peer(b, sc, shared)
+        peers.append((p, gevent.spawn(p.run)))
+        return a
+    kw = dict(socket_creator=creator, ehlo_as='relay.example', connect_timeout=0.5, command_timeout=1.0, data_timeout=1.0,
+              tls_required=bool(sc.get('tlsrequired')))
+    if sc.get('credentials'):
+        kw['credentials'] = ('user', 'pass')
+    if sc.get('encoder'):
+        from email.encoders import encode_base64
+        kw['binary_encoder'] = encode_base64
+    relay = (StaticLmtpRelay if sc['lmtp'] else StaticSmtpRelay)('peer.example', 25, **kw)
+    q = ProxyQueue(relay)
+    rc = {'kind': 'proxy', 'rcpts': ['rcpt%d@example.com' % i for i in range(sc['nr'])]}
+    state = {}
+    out = drive_smtp(rc, q, state) if case['edge'] == 'smtp' else drive_wsgi(rc, q, state)
+    for p, g in peers:
+        g.kill(block=False)
+    for c in list(relay.pool):
+        c.kill(block=False)
+    code = out['code']
+    m = model.ask('ingress proxyhop ' + ' '.join(c11.smtp_args(sc)))
+    mm = dict(x.split('=') for x in m.split(' ')) if m.startswith('smtp=') else {}
+    mismatch = None
+    hits = []
+    if not mm:
+        mismatch = {'op': 'ingress proxyhop', 'model': m}
+    elif case['edge'] == 'smtp':
+        want = int(mm['smtp']) // 100
+        if not isinstance(code, int) or code // 100 != want:
+            mismatch = {'op': 'ingress proxyhop', 'impl': code, 'model_class': want, 'script': sc['dev']}
+    else:
+        want = int(mm['wsgi'])
+        got = 500 if code == 401 else code
+        if out.get('raised'):
+            # _build_http_response raises for a reply that names its command as bytes (every reply the SMTP client read for a
+            # command): the WSGI server answers a bare 500 where 503 / 500 with X-Smtp-Reply was meant. No success reply: C02 holds;
+            # DESIGN 9.4, observations. The model must say "failure" too.
+            if want == 204:
+                mismatch = {'op': 'ingress proxyhop', 'impl': code, 'raised': out['raised'], 'model': want, 'script': sc['dev']}
+        elif got != want:
+            mismatch = {'op': 'ingress proxyhop', 'impl': code, 'model': want, 'script': sc['dev']}
+    ack = isinstance(code, int) and code // 100 == 2
+    if ack:
+        # the property on the implementation alone: the next hop must have been asked for every recipient and have accepted each,
+        # and have accepted the message data
+        dev = sc['dev']
+        refused = [k for k, v in dev.items() if (k.startswith('rcpt') or k in ('mail', 'data', 'eod') or (sc['lmtp'] and k.startswith('eod')))
+                   and not (v.isdigit() and v[0] in '23')]
+        if refused:
+            hits.append(hit('c02.ack-without-custody.%s.proxyhop' % case['edge'], 'the client got a success reply although the next hop behind the proxying queue '
+                            'refused a recipient or the message', observed={'code': code, 'script': dev, 'refused': refused}))
+    key = ('proxyhop', case['edge'], sc['lmtp'], sc['pipelining'], sc['nr'], tuple(sorted(sc['dev'].items())), sc.get('connect'), bool(sc.get('credentials')), bool(sc.get('tlsrequired')))
+    return CaseResult(mismatch, hits, key, ['proxyhop', case['edge'], 'lmtp' if sc['lmtp'] else 'smtp-next-hop', 'ack' if ack else 'nack'] + (['wsgi-app-raised'] if out.get('raised') else []))
+
+
 def run_case(case, model):
     if case.get('kind') == 'wsgi-gate':
         return run_wsgi_gate(case, model)
@@ -670,6 +757,8 @@ def run_case(case, model):
         return run_concurrent(case, model)
     if case.get('kind') == 'ingress':
         return run_ingress(case, model)
+    if case.get('kind') == 'proxyhop':
+        return run_proxyhop(case, model)
     import gevent
     try:
         gevent.get_hub().exception_stream = None
